@@ -395,15 +395,20 @@ def r4_saved_restored(ctx, fields, setters, pairing):
             continue
         for s in b["stmts"]:
             d = s["dst"]
-            if d is None or len(d["p"]) != 2 or d["p"][0] != "deref" or d["l"] != 1:
-                continue
+            if d is None or len(d["p"]) != 2 or d["p"][0] != "deref" or (d["l"] != 1 and exu.local(d["l"]) != ("param", 1)):
+                continue        # (through `self`, or through a copy of it in a spliced helper)
             v = exu.rvalue(s["rv"])
             core = v[2] if v[0] == "cast" else v
             if core[0] == "call" and core[1] in getter_of:
                 restored[getter_of[core[1]]] = d["p"][1]["name"]
     undo = [f_ for f_ in saved if f_ in restored or "previous" in f_]
+    called = {getter_of[t_["callee"].get("key")] for b_ in un["blocks"] if not b_["cleanup"] for t_ in [b_["term"]] if t_["k"] == "call" and t_["callee"].get("key") in getter_of}
     for fld in sorted(set(undo) | {f_ for f_ in restored}):
         ok = fld in saved and fld in restored and saved[fld] == restored[fld]
+        if fld in saved and fld not in restored and fld in called:
+            # unmake reads the field, but what it does with the value is not a plain assignment this rule can follow
+            ctx.lost(rid, "what unmake does with the value of %s (it reads it; no plain `self.<field> = mv.%s()` found)" % (fld, fld))
+            continue
         ctx.ob(rid, "undo-field:%s" % fld, ok,
                "" if ok else ("move field %s: generation saves board field %s, but unmake does not assign that getter's value back to it unchanged (it is dropped or passed through another computation)" % (fld, saved.get(fld)) if fld not in restored else "move field %s: generation saves board field %s, unmake restores board field %s" % (fld, saved.get(fld), restored.get(fld))),
                ctx.where(un), sample={"move_field": fld, "saved_from": saved.get(fld), "restored_to": restored.get(fld)})
